@@ -464,8 +464,8 @@ class CExec:
         cx = self.cx
 
         def at_head(st1):
-            for (n, c) in inv(self, st1, st1):
-                cx.side_obligations.append(("inv-init#%s:%s" % (name, n), list(st1.pc), c, {}))
+            for cl in inv(self, st1, st1):
+                cx.side_obligations.append(("inv-init#%s:%s" % (name, cl[0]), list(st1.pc), cl[1], cl[2] if len(cl) > 2 else {}))
             sth = self.api.havoc(st1, "loop-head:" + name) if heap else st1.log(("python", "loop-head:" + name))
             for ln, srt in modified.items():
                 sth = sth.set(ln, cx.fresh("lh_" + ln, srt))
@@ -479,12 +479,12 @@ class CExec:
             if sth.own is not None:
                 sth = sth.with_own(cx.fresh("own_lh", sth.own.sort()))
             sth = sth.with_exc(cx.fresh("exc_lh", INT))
-            sth = sth.assume(*[c for (_n, c) in inv(self, sth, st1)])
+            sth = sth.assume(*[cl[1] for cl in inv(self, sth, st1)])
             v0 = variant(self, sth) if variant is not None else None
 
             def close(st6):
-                for (n, c) in inv(self, st6, st1):
-                    cx.side_obligations.append(("inv-keep#%s:%s" % (name, n), list(st6.pc), c, {}))
+                for cl in inv(self, st6, st1):
+                    cx.side_obligations.append(("inv-keep#%s:%s" % (name, cl[0]), list(st6.pc), cl[1], cl[2] if len(cl) > 2 else {}))
                 if v0 is not None:
                     v1 = variant(self, st6)
                     cx.side_obligations.append(("inv-keep#%s:variant-decreases" % name, list(st6.pc), z3.And(v1 >= 0, v1 < v0), {}))
